@@ -347,6 +347,10 @@ func (w *World) BuildEthOp(op *Op) *Sent {
 	if op.Init != "" {
 		create = true
 		rt := templates[op.Init]()
+		if op.Init == "raw" {
+			// the runtime code is given in Data
+			rt, _ = hex.DecodeString(op.Data)
+		}
 		data = InitCodeFor(rt, func(a *Asm) {
 			// constructor effect: slots 1..8 non-zero so that "clear" has something to refund
 			if op.Init == "clear" {
@@ -356,7 +360,7 @@ func (w *World) BuildEthOp(op *Op) *Sent {
 				}
 			}
 		})
-		if op.Data != "" {
+		if op.Data != "" && op.Init != "raw" {
 			data = append(data, w.resolveData(op.Data)...)
 		}
 	} else {
